@@ -53,6 +53,23 @@ def gen_world(rng, P, name):
     pending = []      # (member, remaining op count)
     n0 = len(base.ops)
     points = sorted(rng.randint(1, n0) for _ in range(nclones))
+    # a listener attached late (before the first clone is taken): the clone registers it together with the
+    # constructor's providers in one pass (C17_registry_late)
+    for L in list(base.listeners_ctor):
+        conv_only = all(c.style == "conv" for c in base.cbs if c.provider == L)
+        sync_ok = base.is_async() == any(c.coro and c.wrap != "lazy" for c in base.cbs
+                                          if c.provider != L and base._cb_live_at_ctor(c) and base._cb_bound(c))
+        if conv_only and sync_ok and points[0] >= 2 and rng.random() < 0.5:
+            base.listeners_ctor.remove(L)
+            if not base.is_async():
+                for c in base.cbs:
+                    if c.provider == L:       # (a late async listener on a sync machine is finding D12 of C12)
+                        c.coro, c.yields, c.wrap = False, 0, ("" if c.wrap == "lazy" else c.wrap)
+            pos = rng.randint(1, points[0] - 1)
+            base.ops.insert(pos, ("add_listener", L))
+            points = [pt + 1 for pt in points]
+            n0 += 1
+            break
     for ci, pt in enumerate(points):
         src = 0
         k = pt
